@@ -34,9 +34,13 @@ LEAN_MODULE_EXTRA += ['CC.Properties.C03State', 'CC.Properties.C10', 'CC.Propert
 # (harness/extract_freq.py -> CC/Gen/Freq.lean; CC/Properties/C09Gen.lean; shared with C09)
 THEOREMS += ['CC.C09_gen_frequency_components']
 LEAN_MODULE_EXTRA += ['CC.Properties.C09Gen']
+# round 5c: the four transformations applied together (CC/Properties/C03Composite.lean)
+THEOREMS += ['CC.C03_composite', 'CC.C03_reported_composite', 'CC.C03_transfer_composite', 'CC.C03_sample_composite',
+             'CC.composite_forward', 'CC.composite_back', 'CC.Net.flip_flip']
+LEAN_MODULE_EXTRA += ['CC.Properties.C03Composite']
 OPEN_STATEMENTS = ['C03_statespace / C03_transient are theorems about the Spec-side report read from the output VECTOR y = C x + D u (C03_transfer_*, C03_sample_*); that the model\'s output ROWS (c_row_* / d_row_*) deliver that report is still CC.C10_output_rows_statement (open) - rows covered by correspondence + metamorphic oracle only',
                    'C03_transient: the theorems are per sample, for states RELATED by the induced state map (same capacitor voltage / inductor current per renamed element, negated when reversed); that the integrator (scipy lsim, a parameter of the model) keeps two related trajectories related is not a theorem - decided per instance by the transient stream of the oracle',
-                   'one composite theorem for rename + permutation + reversal + re-referencing applied together (what the oracle does) is not stated; the four theorems compose only through their hypotheses (well-posedness of each intermediate network)']
+                   'composite of rename + permutation + reversal + re-referencing applied together: PROVED in round 5c (CC/Properties/C03Composite.lean) - C03_composite (circuit equations: forward, backward, and for N with distinct ids and well-posed - the only well-posedness hypothesis, about the ORIGINAL - every pair of solutions is related by R\'.pot(sigma n) = R.pot n - R.pot g, R\'.v/i(tau id) = +-R.v/i id), C03_reported_composite (accessor values for any solution vectors of the two matrix equations; WF of both descriptions assumed), C03_transfer_composite / C03_sample_composite (state-space transfer / per-sample level, well-posedness of the original phasor network / original circuit with states imposed). Still outside: the order of the four steps is fixed (re-reference, reverse, permute, rename - other orders are not stated separately); validity (WF) of the transformed description is a hypothesis of the reported version; the potential clause needs the new reference g to be a label of N; no separate non-vacuity example for the transfer / sample composites (hypotheses instantiated piecewise in C03ex and C03cx); port impedances (C06_port_invariant_*) and powers have no composite theorem']
 ASSUMPTIONS = ['C03_transfer_* / C03_sample_*: both settings are RLC + ideal-source w=0 networks with certificates satisfying ModelCert (StateModelOK); dictionaries give the same value to the same renamed element and inputs the same amplitude to the same renamed source, negated for a reversed source (SameValues / SameInput - hypotheses, the order of dictionaries and of `sources` is free); well-posedness of the TARGET network is a hypothesis: the phasor network at s (transfer), the circuit with its states imposed as sources (sample); for renaming it is the ORIGINAL network, sigma injective, tau arbitrary',
                'C03_reported_* take validity (WF) and well-posedness of the TRANSFORMED network as hypotheses (not derived from the original); power invariance has no theorem of its own (power = V·conj(I) of invariant quantities, C01_power)',
                'invariance theorems are about the Spec; equality of reported values uses C01_sound + C01_unique (well-posed networks)',
